@@ -28,6 +28,9 @@ def _run(prog):
     import ECAgent.Tags as Tags
     libs = {}
     used = []
+    for _lib, _tag in prog["ops"]:        # every name the history will use is looked up after every step, also before it is added
+        if _tag not in used:
+            used.append(_tag)
     events = []
 
     def lib_names(name):
